@@ -117,6 +117,98 @@ pub fn scaling_shapes() -> Vec<Baseline> {
             out.push(Baseline { name: format!("shape:scale:tracks{}:moofs{}:{}", k, mf, if with_traf { "one_traf_each" } else { "no_traf" }), bytes: serialize(&all).0, init: None, pairs: false });
         }
     }
+    // (e) K audio tracks whose ES descriptor declares a length that reaches the end of the file, followed inside the box
+    // by a descriptor that hops to a shared tail of empty descriptors (tag 1, length 0) in a trailing free box
+    for (k, tail) in [(50usize, 25_000usize), (200, 100_000)] {
+        let tracks: Vec<LTrack> = (0..k).map(|i| LTrack::simple(i as u32 + 1, Codec::Aac, 48000, vec![LSample { size: 1, delta: 1024, cts: 0, sync: true }], vec![1])).collect();
+        let mut m = LMovie::new(1000, tracks);
+        m.mdat_first = true;
+        let mut tail_bytes = Vec::with_capacity(tail);
+        for _ in 0..tail / 2 {
+            tail_bytes.push(1u8);
+            tail_bytes.push(0u8);
+        }
+        m.top_back = vec![Node::leaf(b"free", tail_bytes)];
+        let mut ns = nodes(&m);
+        fn patch_esds(n: &mut Node) {
+            if &n.cc == b"esds" {
+                if let Body::Leaf(p) = &mut n.body {
+                    if p.len() > 6 && p[4] == 3 && p[5] < 0x80 {
+                        let mut nb = p[..5].to_vec();
+                        nb.extend_from_slice(&[0x80, 0x80, 0x80, 0x00]); // ES descriptor length: patched below
+                        nb.extend_from_slice(&p[6..]);
+                        nb.extend_from_slice(&[0x01, 0x80, 0x80, 0x80, 0x00]); // hop descriptor: patched below
+                        *p = nb;
+                    }
+                }
+            }
+            if let Some(k) = n.children_mut() {
+                for c in k.iter_mut() {
+                    patch_esds(c);
+                }
+            }
+        }
+        for n in ns.iter_mut() {
+            patch_esds(n);
+        }
+        let mut bytes = serialize(&ns).0;
+        let eof = bytes.len();
+        let tail_start = eof - tail / 2 * 2;
+        let put = |v: &mut [u8], at: usize, x: usize| {
+            v[at] = 0x80 | ((x >> 21) & 0x7f) as u8;
+            v[at + 1] = 0x80 | ((x >> 14) & 0x7f) as u8;
+            v[at + 2] = 0x80 | ((x >> 7) & 0x7f) as u8;
+            v[at + 3] = (x & 0x7f) as u8;
+        };
+        let mut i = 0usize;
+        while i + 20 < tail_start {
+            if &bytes[i..i + 4] == b"esds" && bytes[i + 8] == 3 {
+                let es_start = i + 13;
+                put(&mut bytes, i + 9, eof - es_start);
+                let mut j = es_start;
+                while j + 5 < tail_start && bytes[j..j + 5] != [0x01, 0x80, 0x80, 0x80, 0x00] {
+                    j += 1;
+                }
+                put(&mut bytes, j + 1, tail_start - (j + 5));
+                i = j;
+            }
+            i += 1;
+        }
+        out.push(Baseline { name: format!("shape:scale:esds_descriptor_to_eof_x{}_tail{}", k, tail), bytes, init: None, pairs: false });
+    }
+    // (d) replicated overruns: M movie fragments in the second half of the file, in each of which the run declares a size
+    // that reaches from its own start to the end of the file (and a sample count to match) while traf and moof keep
+    // their true sizes.  A reader refuses the first one; one that bounds a child by the wrong end reads the rest of the
+    // file once per fragment.
+    for mf in [100usize, 400] {
+        let m = LFragMovie { movie_ts: 1000, tracks: vec![LFragTrack { id: 1, codec: Codec::Avc, timescale: 12800, trex_default_duration: 9 }], fragments: vec![], mehd: None, large_moof: false, offsets_only: false, fillers: 0 };
+        let mut all = init_nodes(&m);
+        all.push(Node::leaf(b"free", vec![0u8; mf * 80]));
+        for f in 0..mf {
+            let th = Tfhd { version: 0, extra_flags: 0x020000, track_id: 1, base_data_offset: None, sample_description_index: None, default_sample_duration: None, default_sample_size: Some(1), default_sample_flags: None };
+            let tr = Trun { version: 0, sample_count: 1, data_offset: None, first_sample_flags: None, durations: Some(vec![1]), sizes: None, flags_: None, cts: None };
+            all.push(Node::kids(b"moof", vec![mfhd(f as u32 + 1), Node::kids(b"traf", vec![tfhd(&th), trun(&tr)])]));
+        }
+        let mut bytes = serialize(&all).0;
+        let n = bytes.len();
+        // patch every trun: size -> up to the end of the file (a multiple of 4 beyond its 16 fixed bytes), count to match
+        let mut p = 0usize;
+        while p + 8 <= n {
+            let s = u32::from_be_bytes([bytes[p], bytes[p + 1], bytes[p + 2], bytes[p + 3]]) as usize;
+            let cc = [bytes[p + 4], bytes[p + 5], bytes[p + 6], bytes[p + 7]];
+            if &cc == b"moof" || &cc == b"traf" {
+                p += 8;
+                continue;
+            }
+            if &cc == b"trun" {
+                let avail = (n - p - 16) / 4 * 4 + 16;
+                bytes[p..p + 4].copy_from_slice(&(avail as u32).to_be_bytes());
+                bytes[p + 12..p + 16].copy_from_slice(&(((avail - 16) / 4) as u32).to_be_bytes());
+            }
+            p += s.max(8);
+        }
+        out.push(Baseline { name: format!("shape:scale:replicated_overrun_trun_to_eof_x{}", mf), bytes, init: None, pairs: false });
+    }
     // (c) nested malformed chains in front of a shared tail: d meta boxes, each declared to reach the end of its parent,
     // each holding an item list (declared to reach the tail) whose first item has size 0, the next meta box being the
     // content of that list; behind the chain k empty free boxes and a handler box.  A reader stops at the first
